@@ -7,6 +7,7 @@ import rules_api
 import rules_det
 import rules_io
 import rules_lock
+import rules_name
 
 PROPS = {
     "C06": {
@@ -15,6 +16,14 @@ PROPS = {
                        "R-FLUSHFIRST (every window move - store to buf_offset_from_start, StreamBuffer::clear, refill_with - is preceded on every path by the ok successor of flush_changes, with no mark_modified in between) and "
                        "R-WINDOW (after the window offset is stored, every path to any return, error exits included, passes clear or a successful refill).",
         "not_decided": "equality with a byte vector for all call sequences and buffer sizes (values of pos/cap/offset/total_len across histories); set_len near u64::MAX",
+    },
+    "C09": {
+        "rules": [rules_name.validname, rules_name.norm, rules_name.orient, rules_api.errkind("C09")],
+        "explanation": "R-VALIDNAME (must-pass-through, interprocedural): from every DirEntry::new call with a non-constant name, walking up the call graph along the name argument to the public methods, some function validates the name (ok successor of validate_name on data derived from the same parameter dominates the forwarding call; a completed validation loop counts) and no state mutation precedes that validation on the chain. "
+                       "R-NORM: every API method's path parameter reaches only name_chain_from_path (or formatting / forwarding to another API method), and lookups/inserts/removals take names derived from its result. "
+                       "R-ORIENT: all compare_names sites agree on orientation (sought name first; Less -> left_sibling, Greater -> right_sibling in both the walk and the link update; validate rejects exactly != Less for (left,node) and (node,right)); no other comparator touches entry names in the directory layer. "
+                       "R-ERRKIND rows: over-long name, forbidden character, prefix/escaping/non-UTF-8 path are InvalidInput.",
+        "not_decided": "that compare_names is the CFB order over all Unicode (ASCII fast path vs general path, upper-casing table); that names are stored verbatim and found under every case variant",
     },
     "C10": {
         "rules": [rules_api.noeffect],
